@@ -26,6 +26,13 @@ theorem cached_transparent (g : Nat → Nat) (m : Memo) (calls : List Nat) (h : 
     runCached g m calls = calls.map g :=
   Hg.cached_transparent g m calls h
 
+/-- … also for a function that raises for some arguments (`none`): the wrapper raises exactly when the function
+does, however often a failing argument is repeated (the order of effects of `CachedFcn.__call__` after fix f118426;
+`Hg.stale_after_raise_old` is the kernel-checked witness for the earlier order) -/
+theorem cached_transparent_partial (g : Nat → Option Nat) (m : Memo) (calls : List Nat) (h : m.okP g) :
+    runCachedP g m calls = calls.map g :=
+  Hg.cached_transparent_partial g m calls h
+
 theorem cached_idem (f g : Fcn) (h : f.apply .cached = some g) : g.apply .cached = some g :=
   Hg.cached_idem f g h
 
